@@ -395,6 +395,7 @@ def r4_5(ctx, rc):
         return p
 
     def unfinished(a, f, cn):
+        a = ctx.H.subst(a, f, cn)
         if isinstance(a, ast.Compare) and len(a.ops) == 1 and isinstance(
                 a.comparators[0], ast.Constant) and \
                 a.comparators[0].value is None:
@@ -414,9 +415,10 @@ def r4_5(ctx, rc):
              'has_norm_cased_file', 'new')) or (
                  isinstance(lab, tuple) and len(lab) == 4 and
                  unfinished(lab[1], lab[2], lab[3]) and (
-                     (isinstance(lab[1].ops[0], ast.Is) and lab[0] == 'F') or
-                     (isinstance(lab[1].ops[0], ast.IsNot) and
-                      lab[0] == 'T')))),
+                     (isinstance(ctx.H.subst(lab[1], lab[2], lab[3]).ops[0],
+                                 ast.Is) and lab[0] == 'F') or
+                     (isinstance(ctx.H.subst(lab[1], lab[2], lab[3]).ops[0],
+                                 ast.IsNot) and lab[0] == 'T')))),
     ]
     for what, ok in checks:
         seen = sg.reach([sg.entry],
